@@ -474,6 +474,8 @@ Lemma clean_bind {A B} (m : M A) (k : A -> M B) : clean m -> (forall a, clean (k
 Proof. intros Hm Hk s ts. unfold bind. specialize (Hm s ts). destruct (m s ts); auto. apply Hk. Qed.
 Lemma clean_rd n : clean (rd n).
 Proof. intros s ts. unfold rd. destruct (take_bytes ts n); exact I. Qed.
+Lemma clean_desyncM {A} c : clean (@desyncM A c).
+Proof. intros s ts. exact I. Qed.
 Lemma clean_const {A} (r : res A) : match r with Oob _ => False | _ => True end -> clean (fun _ _ => r).
 Proof. intros H s ts. exact H. Qed.
 Hint Resolve clean_ret clean_fail clean_get clean_upd clean_rd : cln.
@@ -494,7 +496,7 @@ Ltac cln_step :=
       | |- clean (let '(_, _) := ?x in _) => destruct x
       | |- clean (fun _ _ => Fail) => apply clean_const; exact I
       | |- clean (fun _ _ => More) => apply clean_const; exact I
-      | |- clean (fun _ _ => Desync) => apply clean_const; exact I
+      | |- clean (desyncM _) => apply clean_desyncM
       end ].
 Ltac cln := repeat cln_step.
 
